@@ -35,7 +35,7 @@ LIMIT = {'quick': dict(progress=40, auth=30, line=80, vmabort=24, rline=30, raut
 
 
 def plan(tier, seed):
-    return [{'seed': seed * 1000003 + i, 'lmfver': doc.LMF_VERSIONS[1 + i % 3] if i % 4 else '1.0', 'tier': tier} for i in range(N[tier])]
+    return [{'kind': 'big-remove', 'seed': seed, 'tier': tier}] + [{'seed': seed * 1000003 + i, 'lmfver': doc.LMF_VERSIONS[1 + i % 3] if i % 4 else '1.0', 'tier': tier} for i in range(N[tier])]
 
 
 def pick(ks, limit, r):
@@ -52,7 +52,50 @@ class Ctx:
     pass
 
 
+def big_remove(case, rec):
+    """a removal large enough for the SQLite progress handler that remove() installs to fire at its real interval
+    (every 100000 VM instructions): the caller's handler is only informed, the removal must complete"""
+    import wn
+    from wn.util import ProgressHandler
+    r = random.Random(case['seed'])
+    prof = doc.Profile(max_entries=700, max_synsets=700, hostile=0.05, idstyle='prefixed')
+    lex = None
+    while lex is None or len(lex.get('entries', [])) < 400:
+        lex = doc.gen_lexicon(r, '1.1', 'bigrm', '1', prof)
+    small = doc.gen_lexicon(r, '1.1', 'keep', '1', doc.Profile(max_entries=3, max_synsets=3))
+    calls = {'n': 0}
+
+    class Counting(ProgressHandler):
+        def update(self, n=1, force=False):
+            calls['n'] += 1
+            return super().update(n, force)
+
+    work = env.mkdtemp('c06big')
+    try:
+        with env.FreshDB() as fdb:
+            wnio.add(wnio.write_resource({'lmf_version': '1.1', 'lexicons': [small, lex]}, work, random.Random(1)))
+            before = dbdump.dump(fdb.path)
+            wn.remove('bigrm:1', progress_handler=Counting)
+            rec.event('big-remove.handler-calls', calls['n'])
+            left = sorted(x.specifier() for x in wn.lexicons())
+            if left != ['keep:1']:
+                rec.violation('remove:big-lexicon', f'after removing a {len(lex["entries"])}-entry lexicon the installed set is {left}')
+            for key, msg in dbdump.audit(fdb.path):
+                rec.violation('remove:big-lexicon:' + key, msg)
+            after = dbdump.dump(fdb.path)
+            for t in dbdump.OWNED:
+                if len(after[t]) >= len(before[t]) and before[t]:
+                    rec.violation('remove:big-lexicon', f'table {t} did not shrink: {len(before[t])} -> {len(after[t])} rows')
+                    break
+    finally:
+        env.rmtree(work)
+    rec.done(['big-remove', case['seed']], nontrivial=True, sample={'operation': 'remove of a large lexicon', 'entries': len(lex['entries']),
+                                                                     'handler_calls': calls['n']})
+
+
 def run_case(case, rec):
+    if case.get('kind') == 'big-remove':
+        return big_remove(case, rec)
     import wn
     import wn._add as wnadd
     r = random.Random(case['seed'])
